@@ -105,6 +105,18 @@ def scenarios(thorough):
     out.append({"phase": "build", "label": "duplicate-sbom-formats:write_sboms", "script": {"build": {"kind": "pass", "ops": [{"op": "cached", "name": "a", "launch": True}, {"op": "write_sboms", "name": "a", "sboms": dup_sb}]}}})
     out.append({"phase": "build", "label": "duplicate-sbom-formats:handle", "script": {"build": {"kind": "pass", "ops": [{"op": "handle", "name": "a", "types": [True, True, True], "strategy": "recreate", "result": dict(RESULT3, sboms=dup_sb)}]}}})
     out.append({"phase": "build", "label": "duplicate-sbom-formats:build-result", "script": {"build": {"kind": "pass", "launch": LAUNCH3, "build_sboms": dup_sb, "launch_sboms": list(reversed(dup_sb))}}})
+    # the SBOM set of a layer shrinks (formats written earlier in the same build, or restored, are no
+    # longer provided): whatever the implementation does with the superseded files must not leave
+    # process-dependent traces
+    out.append({"phase": "build", "label": "sbom-set-shrinks:write_sboms", "script": {"build": {"kind": "pass", "ops": [{"op": "cached", "name": "a", "launch": True}, {"op": "write_sboms", "name": "a", "sboms": SB3}, {"op": "write_sboms", "name": "a", "sboms": SB3[:1]}]}}})
+    pre_sb = {"a.toml": "[metadata]\nk1 = 1\n", "a/keep": "k", "a.sbom.cdx.json": "{\"old\":1}", "a.sbom.spdx.json": "{\"old\":2}", "a.sbom.syft.json": "{\"old\":3}"}
+    for strat in ("update", "recreate"):
+        out.append({"phase": "build", "label": f"sbom-set-shrinks:handle-{strat}", "pre": pre_sb, "script": {"build": {"kind": "pass", "ops": [{"op": "handle", "name": "a", "types": [True, True, True], "strategy": strat, "result": dict(RESULT3, sboms=SB3[1:2])}]}}})
+    # process scopes whose names lie outside the process-type grammar and differ only in such
+    # characters (Scope::Process takes any string): each keeps its own directory and value
+    odd_env = [["process:web worker", "override", "C", "4"], ["process:web_worker", "override", "C", "5"], ["process:web.worker", "override", "C", "6"], ["process:web-worker", "append", "C", "7"]]
+    out.append({"phase": "build", "label": "process-scopes-odd-names:write_env", "script": {"build": {"kind": "pass", "ops": [{"op": "cached", "name": "a", "launch": True}, {"op": "write_env", "name": "a", "env": odd_env}]}}})
+    out.append({"phase": "build", "label": "process-scopes-odd-names:handle", "script": {"build": {"kind": "pass", "ops": [{"op": "handle", "name": "a", "types": [True, True, True], "strategy": "recreate", "result": dict(RESULT3, env=odd_env)}]}}})
     # a restored layer whose env directories hold aliasing files (NAME and NAME.override, written by
     # other tooling), read and written back by three routes
     pre = {"a.toml": "[metadata]\nk1 = 1\nk2 = 2\nk3 = 3\n", "a/env/RAILS_ENV": "production", "a/env/RAILS_ENV.override": "staging",
